@@ -176,6 +176,26 @@ class Bits(object):
             ctx.hit("packinto_with_neighbours")
         if len(before) < offset + rsize:
             ctx.hit("packinto_extends")
+        # I': a call REJECTED for a size too small for the format (ValueError, documented) has written nothing: the
+        # caller's buffer - bytes and length - is what it was (seeded C40-M: room made before the width was validated)
+        tbfl = sum(widths)
+        small = (tbfl - 1) // 8 if tbfl > 0 else None       # largest size that cannot hold the format
+        if small is not None and small >= 0:
+            target = bytearray(before)
+            try:
+                b.packifyInto(target, fmt, list(values), size=small, offset=offset, reverse=reverse)
+            except ValueError:
+                ctx.hit("packinto_rejected_size_too_small")
+                ctx.check(bytes(target) == before, "packifyInto/rejected-call-changed-the-buffer/" + tag,
+                          "packifyInto rejected the call (size too small for the format) but changed the caller's buffer",
+                          lambda: wit(before=before.hex()[:80], after=bytes(target).hex()[:120], size=small, offset=offset))
+            except Exception as e:
+                ctx.fail("packifyInto/size-too-small-raises/" + exc_key(e),
+                         "packifyInto with a size too small for the format raises %r, not ValueError" % (e,),
+                         wit(buf=before.hex()[:80], size=small))
+            else:
+                ctx.fail("packifyInto/size-too-small-accepted/" + tag,
+                         "packifyInto accepted a size that cannot hold the format", wit(size=small, offset=offset))
 
 
 def value_vectors(widths, rng, k):
